@@ -143,9 +143,10 @@ def run(chk):
     bad_ids = {b["id"]: {e["why"] for bad in b["bad"] for e in bad["errs"]} for b in res["BAD"]}
     n_case = n_pair = n_good = 0
     pred_mismatch = []
+    readable = {r["id"]: all(p["op"]["readable"] and p["norm"]["ok"] for p in r["pairs"] if p["main"]) for r in recs}
     for it, o in zip(items, obs):
-        if o["outcome"] != "ok":
-            continue
+        if o["outcome"] != "ok" or not readable.get(o["id"], False):
+            continue            # nothing was observed for this program (rejected, or its operation text cannot be read)
         whys = bad_ids.get(o["id"], set())
         if it["k"] == "case":
             n_case += 1
